@@ -29,8 +29,8 @@ use std::time::{Duration, Instant};
 
 pub const META: Meta = Meta {
     level: "exploration",
-    rule: "(a) every combination of record_ttl in {None,500 ms,1 s,10 s,100 s} (+{1 ms,999 ms,1.5 s,48 h} thorough) x expiry given by the peer in {None, 5 s, 50 s, 500 s, 1 s in the past} (+{1 ms, 10 s, 2^33 s} thorough) x record filtering {off,on} x publisher {none,P1} (+P2 thorough) x key neighbourhood {empty routing table, replication factor 1 with 8 / 30 (+70 thorough) peers offered to the routing table so that num_beyond_k > 0 and the locally allowed lifetime exp_decrease(ttl, num_beyond_k) is halved repeatedly, down to 0 s}, each on a fresh real Behaviour under the virtual clock; (b) every remaining lifetime in {none, expired 1 s ago, 1 ns, 999 ms, 1 s, 1.5 s, 2^32 s, 2^32+1 s} (+{0, 2^32-1 s, 2^32 s+999 ms, 2^33 s} thorough) x {PutValue request, GetValue response} x publisher {none,P1}. Non-trivial = distinct cases in which a record was kept (a) / distinct cases with an expiry (b).",
-    explanation: "Complete enumeration (E3) of the stated configurations and inputs against the real Behaviour::record_received (through on_connection_handler_event) and the real record_to_proto (through the codecs); the kept expiry is read from the store / the InboundRequest event, the encoded ttl from the wire bytes.",
+    rule: "(a) every combination of record_ttl in {None,500 ms,1 s,10 s,100 s} (+{1 ms,999 ms,1.5 s,48 h} thorough) x expiry given by the peer in {None, 5 s, 50 s, 500 s, 1 s in the past} (+{1 ms, 10 s, 2^33 s} thorough) x record filtering {off,on} x publisher {none,P1} (+P2 thorough) x key neighbourhood {empty routing table, replication factor 1 with 8 / 30 (+70 thorough) peers offered to the routing table so that num_beyond_k > 0 and the locally allowed lifetime exp_decrease(ttl, num_beyond_k) is halved repeatedly, down to 0 s}, each on a fresh real Behaviour under the virtual clock; (b) every remaining lifetime in {none, expired 1 s ago, 1 ns, 999 ms, 1 s, 1.5 s, 2^32 s, 2^32+1 s} (+{0, 2^32-1 s, 2^32 s+999 ms, 2^33 s} thorough) x {PutValue request, GetValue response} x publisher {none,P1}. (c) the periodic PutRecordJob of the real Behaviour (replication interval 1000 s, publication interval 2000 s, one connected routing-table peer answering FindNode): record_ttl in {None,100 s,10000 s} (+{1 s,48 h} thorough) x stored record publisher {local node, P2, none} x stored expiry {none, 5000 s} (+{2002 s,100000 s} thorough) x {publication run: virtual clock advanced 2001 s, replication run: 1001 s}; every outgoing HandlerIn::PutRecord is observed and encoded with the real codec. Non-trivial = distinct cases in which a record was kept (a) / distinct cases with an expiry (b) / distinct cases in which the job sent the record (c).",
+    explanation: "Complete enumeration (E3) of the stated configurations and inputs against the real Behaviour::record_received (through on_connection_handler_event) and the real record_to_proto (through the codecs); the kept expiry is read from the store / the InboundRequest event, the encoded ttl from the wire bytes; (c) a stored record with an expiry never goes out without one, with a later one, or with wire ttl 0.",
     assumptions: &[
         "virtual clock: the expiry given by the peer is an Instant relative to the same frozen now the behaviour reads",
         "one connected remote peer, MemoryStore with default limits",
@@ -315,6 +315,142 @@ fn cases_b(thorough: bool) -> Vec<CaseB> {
     v
 }
 
+// ---------------------------------------------------------------- part (c): periodic re-publication / replication
+
+#[derive(Clone, Debug, Serialize, Deserialize, PartialEq)]
+pub struct CaseC {
+    /// configured record TTL (seconds)
+    ttl_s: Option<u64>,
+    /// publisher of the stored record: 0 = the local node, 9 = none, else peer index
+    publisher: u8,
+    /// expiry of the stored record relative to the start (seconds)
+    stored_expiry_s: Option<u64>,
+    /// true: the clock is advanced past the publication interval, false: only past the replication interval
+    publication_run: bool,
+}
+
+#[derive(Clone, Debug, Serialize, Deserialize, PartialEq)]
+pub struct ObsC {
+    /// expiry (ns relative to the start) of every outgoing PutRecord for the key; None = no expiry
+    sent: Vec<Option<i64>>,
+    /// Record.ttl the real codec puts on the wire for each of them
+    wire_ttl: Vec<u64>,
+    still_stored: bool,
+}
+
+const REPL_S: u64 = 1000;
+const PUB_S: u64 = 2000;
+
+fn run_c(c: &CaseC) -> Result<ObsC, String> {
+    let mut n = Node::new(&NodeCfg { record_ttl: c.ttl_s.map(Duration::from_secs), replication: Some(Duration::from_secs(REPL_S)), publication: Some(Duration::from_secs(PUB_S)), ..Default::default() });
+    let t0 = Instant::now();
+    let key = RecordKey::new(&KEY);
+    // one connected peer in the routing table, so that the job's query has somebody to talk to
+    n.connect(1);
+    n.b.add_address(&peer(1), "/ip4/10.0.0.11/tcp/5000".parse().unwrap());
+    let publisher = match c.publisher {
+        0 => Some(crate::drv::local()),
+        9 => None,
+        p => Some(peer(p)),
+    };
+    n.b.store_mut().put(Record { key: key.clone(), value: b"v".to_vec(), publisher, expires: c.stored_expiry_s.map(|s| t0 + Duration::from_secs(s)) }).map_err(|e| format!("store.put: {e:?}"))?;
+    n.drain();
+    mc::vclock::advance(Duration::from_secs(if c.publication_run { PUB_S + 1 } else { REPL_S + 1 }));
+    let mut obs = ObsC { sent: vec![], wire_ttl: vec![], still_stored: false };
+    for _round in 0..16 {
+        let evs = n.drain();
+        if evs.is_empty() {
+            break;
+        }
+        for e in evs {
+            if let Out::NotifyHandler { peer_id, event, .. } = e {
+                let Some(p) = kit::ids::pidx(&peer_id) else { continue };
+                match event {
+                    hook::HandlerIn::FindNodeReq { query_id, .. } => n.handler_event(p, HEvent::FindNodeRes { closer_peers: vec![], query_id }),
+                    hook::HandlerIn::PutRecord { record, query_id } => {
+                        if record.key == key {
+                            obs.sent.push(record.expires.map(|e| rel_ns(t0, e)));
+                            // what the handler would put on the wire (real codec)
+                            let mut buf = BytesMut::new();
+                            hook::outbound_codec(None).encode(hook::KadRequestMsg::PutValue { record: record.clone() }, &mut buf).map_err(|e| format!("encode: {e}"))?;
+                            obs.wire_ttl.push(wire_record_ttl(&buf)?);
+                        }
+                        n.handler_event(p, HEvent::PutRecordRes { key: record.key, value: record.value, query_id });
+                    }
+                    _ => {}
+                }
+            }
+        }
+    }
+    obs.still_stored = n.b.store_mut().get(&key).is_some();
+    Ok(obs)
+}
+
+/// frame -> Message.record (3) -> Record.ttl (777), 0 when absent
+fn wire_record_ttl(buf: &[u8]) -> Result<u64, String> {
+    let (_, n) = pb::read_varint(buf).ok_or("bad frame prefix")?;
+    let fields = pb::parse(&buf[n..]).ok_or("message not parsable")?;
+    let rec = fields.iter().find_map(|f| match f {
+        Field::Bytes(3, b) => Some(b.clone()),
+        _ => None,
+    });
+    let rf = pb::parse(&rec.ok_or("no Record on the wire")?).ok_or("record not parsable")?;
+    Ok(rf
+        .iter()
+        .find_map(|f| match f {
+            Field::Uint(777, v) => Some(*v),
+            _ => None,
+        })
+        .unwrap_or(0))
+}
+
+fn oracle_c(c: &CaseC, o: &ObsC) -> Vec<String> {
+    let mut errs = Vec::new();
+    let who = match c.publisher {
+        0 => "own",
+        9 => "no-publisher",
+        _ => "foreign",
+    };
+    let run = if c.publication_run { "publication" } else { "replication" };
+    if let Some(es) = c.stored_expiry_s {
+        let stored = es as i64 * S;
+        for (x, ttl) in o.sent.iter().zip(&o.wire_ttl) {
+            match x {
+                None => errs.push(format!("republish-expiry-dropped:{who}-record:record_ttl={} :: {run} run: stored record expires at start+{es}s but goes out WITHOUT expiry (wire ttl {ttl})", c.ttl_s.map_or("none".into(), |t| format!("{t}s")))),
+                Some(x) if *x > stored => errs.push(format!("republish-expiry-extended:{who}-record:record_ttl={} :: {run} run: stored record expires at start+{es}s but goes out with expiry start+{}", c.ttl_s.map_or("none".into(), |t| format!("{t}s")), fmt_ns(*x))),
+                Some(_) if *ttl == 0 => errs.push(format!("republish-ttl0:{who}-record :: {run} run: outgoing record has an expiry but wire ttl 0")),
+                Some(_) => {}
+            }
+        }
+    }
+    errs
+}
+
+fn cases_c(thorough: bool) -> Vec<CaseC> {
+    let mut ttls = vec![None, Some(100), Some(10_000)];
+    let mut exps = vec![None, Some(5_000)];
+    if thorough {
+        ttls.extend([Some(1), Some(48 * 3600)]);
+        exps.extend([Some(2_002), Some(100_000)]);
+    }
+    let mut v = Vec::new();
+    for &ttl_s in &ttls {
+        for publisher in [0u8, 2, 9] {
+            for &stored_expiry_s in &exps {
+                for publication_run in [true, false] {
+                    v.push(CaseC { ttl_s, publisher, stored_expiry_s, publication_run });
+                }
+            }
+        }
+    }
+    v
+}
+
+fn exec_c(seed: u64, c: &CaseC) -> Result<ObsC, String> {
+    let c2 = c.clone();
+    mc::isolated(seed, move || run_c(&c2)).and_then(|r| r)
+}
+
 // ---------------------------------------------------------------- run
 
 fn exec_a(seed: u64, c: &CaseA) -> Result<ObsA, String> {
@@ -412,6 +548,50 @@ pub fn run(ctx: &Ctx) -> Outcome {
             out.violation(mc::bfs::signature_of(&m), m, json!({"part":"b","case":c,"observed":o}));
         }
     }
+    // ---- (c)
+    for (i, c) in cases_c(thorough).iter().enumerate() {
+        out.evaluations += 1;
+        let case = json!({"part":"c","case":c});
+        let o = match exec_c(ctx.seed, c) {
+            Ok(o) => o,
+            Err(p) => {
+                out.violation(format!("republish-failed :: {p}"), format!("periodic job run {c:?} failed: {p}"), case);
+                continue;
+            }
+        };
+        match exec_c(ctx.seed.wrapping_add(1), c) {
+            Ok(o2) if o2 == o => {}
+            other => out.machinery(format!("NONDETERMINISM case {c:?}: {o:?} vs {other:?}")),
+        }
+        out.count("c_cases", 1);
+        if !o.sent.is_empty() {
+            out.nontrivial(&format!("c{c:?}"));
+            out.count(match (c.publisher == 0, c.publication_run) {
+                (true, true) => "c_own_record_published",
+                (true, false) => "c_own_record_sent_on_replication_run",
+                (false, _) => "c_foreign_record_replicated",
+            }, 1);
+            if c.stored_expiry_s.is_some() {
+                out.count("c_sent_record_with_stored_expiry", 1);
+            }
+            if c.stored_expiry_s.is_none() && o.sent.iter().any(|x| x.is_some()) {
+                out.count("c_expiry_filled_in_from_local_ttl", 1);
+            }
+        } else {
+            out.count("c_nothing_sent", 1);
+        }
+        if i % 5 == 0 {
+            out.sample(json!({"part":"c","case":c,"observed":o}));
+        }
+        for m in oracle_c(c, &o) {
+            out.violation(mc::bfs::signature_of(&m), m, json!({"part":"c","case":c,"observed":o}));
+        }
+    }
+    for k in ["c_own_record_published", "c_foreign_record_replicated", "c_sent_record_with_stored_expiry", "c_expiry_filled_in_from_local_ttl", "c_nothing_sent"] {
+        if out.get(k) == 0 {
+            out.machinery(format!("vacuity: counter {k} is zero"));
+        }
+    }
     // ---- vacuity guards
     for k in ["a_kept_in_store", "a_offered_to_application", "a_not_kept", "a_expiry_is_given", "a_expiry_is_local_ttl", "a_expiry_decreased_below_local_ttl", "a_answered", "a_not_kept_subsecond_local_ttl", "a_not_kept_lifetime_decreased_to_zero", "b_ttl_zero", "b_ttl_nonzero"] {
         if out.get(k) == 0 {
@@ -432,6 +612,13 @@ fn replay(ctx: &Ctx, case: &Value, out: &mut Outcome) {
             Ok(c) => match exec_a(ctx.seed, &c) {
                 Ok(o) => errs = oracle_a(&c, &o),
                 Err(p) => errs.push(format!("recv-panic :: {p}")),
+            },
+            Err(e) => errs.push(format!("bad replay case: {e}")),
+        },
+        Some("c") => match serde_json::from_value::<CaseC>(case["case"].clone()) {
+            Ok(c) => match exec_c(ctx.seed, &c) {
+                Ok(o) => errs = oracle_c(&c, &o),
+                Err(p) => errs.push(format!("republish-failed :: {p}")),
             },
             Err(e) => errs.push(format!("bad replay case: {e}")),
         },
